@@ -662,7 +662,7 @@ func R7LootHandle(c *Ctx) {
 
 // idDecodeKind: how a 32-bit id on the wire became the int that is passed on — "u32" (zero-extended) or "s32"
 // (sign-extended) — read off the first 32-bit-typed value in its backward chain; "" when undecided.
-func idDecodeKind(v ssa.Value, depth int, seen map[ssa.Value]bool) string {
+func (c *Ctx) idDecodeKind(v ssa.Value, depth int, seen map[ssa.Value]bool) string {
 	if v == nil || depth > 12 || seen[v] {
 		return ""
 	}
@@ -676,17 +676,43 @@ func idDecodeKind(v ssa.Value, depth int, seen map[ssa.Value]bool) string {
 		}
 	}
 	switch x := v.(type) {
+	case *ssa.Parameter:
+		// a helper's parameter: what its call sites pass (all must agree)
+		h := x.Parent()
+		idx := -1
+		for i, q := range h.Params {
+			if q == x {
+				idx = i
+			}
+		}
+		k := ""
+		agree := idx >= 0 && c.EveryCallSite(h, func(site ssa.CallInstruction) bool {
+			args := site.Common().Args
+			if idx >= len(args) {
+				return false
+			}
+			ke := c.idDecodeKind(args[idx], depth+1, seen)
+			if ke == "" || (k != "" && ke != k) {
+				return false
+			}
+			k = ke
+			return true
+		})
+		if agree {
+			return k
+		}
+		return ""
 	case *ssa.Convert:
-		return idDecodeKind(x.X, depth+1, seen)
+		return c.idDecodeKind(x.X, depth+1, seen)
 	case *ssa.ChangeType:
-		return idDecodeKind(x.X, depth+1, seen)
+		return c.idDecodeKind(x.X, depth+1, seen)
 	case *ssa.Phi:
 		k := ""
 		for _, e := range x.Edges {
 			if _, isC := e.(*ssa.Const); isC {
 				continue
 			}
-			ke := idDecodeKind(e, depth+1, seen)
+			ke := c.idDecodeKind(e, depth+1, seen)
 			if ke == "" || (k != "" && ke != k) {
 				return ""
 			}
@@ -710,7 +736,7 @@ func idDecodeKind(v ssa.Value, depth int, seen map[ssa.Value]bool) string {
 						if _, isC := st.Val.(*ssa.Const); isC {
 							continue
 						}
-						ke := idDecodeKind(st.Val, depth+1, seen)
+						ke := c.idDecodeKind(st.Val, depth+1, seen)
 						if ke == "" || (k != "" && ke != k) {
 							return ""
 						}
@@ -722,15 +748,15 @@ func idDecodeKind(v ssa.Value, depth int, seen map[ssa.Value]bool) string {
 		}
 	case *ssa.Extract:
 		if call, ok := x.Tuple.(*ssa.Call); ok {
-			return idDecodeKindOfCall(call, x.Index, depth, seen)
+			return c.idDecodeKindOfCall(call, x.Index, depth, seen)
 		}
 	case *ssa.Call:
-		return idDecodeKindOfCall(x, 0, depth, seen)
+		return c.idDecodeKindOfCall(x, 0, depth, seen)
 	}
 	return ""
 }
 
-func idDecodeKindOfCall(call *ssa.Call, idx, depth int, seen map[ssa.Value]bool) string {
+func (c *Ctx) idDecodeKindOfCall(call *ssa.Call, idx, depth int, seen map[ssa.Value]bool) string {
 	callee := call.Call.StaticCallee()
 	if callee == nil || callee.Blocks == nil {
 		return ""
@@ -744,7 +770,7 @@ func idDecodeKindOfCall(call *ssa.Call, idx, depth int, seen map[ssa.Value]bool)
 		if _, isC := ret.Results[idx].(*ssa.Const); isC {
 			continue
 		}
-		ke := idDecodeKind(ret.Results[idx], depth+1, seen)
+		ke := c.idDecodeKind(ret.Results[idx], depth+1, seen)
 		if ke == "" || (k != "" && ke != k) {
 			return ""
 		}
@@ -783,7 +809,7 @@ func R7FileIDDecode(c *Ctx) {
 			if i >= len(args) {
 				return
 			}
-			sites = append(sites, site{shortCallee(name), idDecodeKind(args[i], 0, map[ssa.Value]bool{}), c.pos(call.Pos())})
+			sites = append(sites, site{shortCallee(name), c.idDecodeKind(args[i], 0, map[ssa.Value]bool{}), c.pos(call.Pos())})
 		})
 	}
 	count := map[string]int{}
@@ -834,9 +860,47 @@ func R7CloseReasons(c *Ctx) {
 		}
 		return nil
 	}
+	// a parameter of a helper with one call site stands for the value parsed at that site
+	var parsedDeep func(v ssa.Value, depth int) ssa.Value
+	parsedDeep = func(v ssa.Value, depth int) ssa.Value {
+		if x := parsed(v); x != nil {
+			return x
+		}
+		for {
+			if cv, ok := v.(*ssa.Convert); ok {
+				v = cv.X
+				continue
+			}
+			break
+		}
+		prm, ok := v.(*ssa.Parameter)
+		if !ok || depth > 2 {
+			return nil
+		}
+		h := prm.Parent()
+		idx := -1
+		for i, q := range h.Params {
+			if q == prm {
+				idx = i
+			}
+		}
+		var res ssa.Value
+		nSites := 0
+		if idx < 0 || !c.EveryCallSite(h, func(site ssa.CallInstruction) bool {
+			nSites++
+			if idx < len(site.Common().Args) {
+				res = parsedDeep(site.Common().Args[idx], depth+1)
+			}
+			return true
+		}) || nSites != 1 {
+			return nil
+		}
+		return res
+	}
 	n := 0
+	consts := map[ssa.Value]map[int64]token.Pos{}
+	closedUnder := map[ssa.Value]map[int64]bool{}
 	for _, fn := range HelperClosure(td, 1) {
-		consts := map[ssa.Value]map[int64]token.Pos{}
 		for _, b := range fn.Blocks {
 			for _, in := range b.Instrs {
 				bo, ok := in.(*ssa.BinOp)
@@ -844,7 +908,7 @@ func R7CloseReasons(c *Ctx) {
 					continue
 				}
 				for _, pair := range [][2]ssa.Value{{bo.X, bo.Y}, {bo.Y, bo.X}} {
-					if x := parsed(pair[0]); x != nil {
+					if x := parsedDeep(pair[0], 0); x != nil {
 						if k, isC := ConstInt(pair[1]); isC {
 							if consts[x] == nil {
 								consts[x] = map[int64]token.Pos{}
@@ -855,7 +919,8 @@ func R7CloseReasons(c *Ctx) {
 				}
 			}
 		}
-		closedUnder := map[ssa.Value]map[int64]bool{}
+	}
+	for _, fn := range HelperClosure(td, 1) {
 		EachCall(fn, func(call ssa.CallInstruction) {
 			if CalleeName(call) != "(*Havoc/pkg/agent.Agent).DownloadClose" {
 				return
@@ -871,7 +936,7 @@ func R7CloseReasons(c *Ctx) {
 					continue
 				}
 				for _, pair := range [][2]ssa.Value{{bo.X, bo.Y}, {bo.Y, bo.X}} {
-					if x := parsed(pair[0]); x != nil {
+					if x := parsedDeep(pair[0], 0); x != nil {
 						if k, isC := ConstInt(pair[1]); isC {
 							if inIf == nil || inIf.Block().Dominates(f.If.Block()) {
 								inX, inK, inIf = x, k, f.If
@@ -887,24 +952,25 @@ func R7CloseReasons(c *Ctx) {
 				closedUnder[inX][inK] = true
 			}
 		})
-		for x, ks := range closedUnder {
-			n++
-			construct := "DownloadClose under every compared value of a parsed reason"
-			missing := ""
-			var pos token.Pos
-			for k, p := range consts[x] {
-				if !ks[k] {
-					missing = itoa(int(k))
-					pos = p
-				}
-			}
-			if missing == "" {
-				c.R.Ok(rule, FuncShort(fn), construct, c.pos(x.Pos()), "all distinguished reasons release the transfer", true)
-			} else {
-				c.R.Bad(rule, FuncShort(fn), construct, c.pos(pos), "the handler distinguishes the value "+missing+" of this field but does not call DownloadClose under it, while it does under its siblings: that end-of-transfer report leaves the download open")
+	}
+	for x, ks := range closedUnder {
+		n++
+		construct := "DownloadClose under every compared value of a parsed reason"
+		missing := ""
+		var pos token.Pos
+		for k, p := range consts[x] {
+			if !ks[k] {
+				missing = itoa(int(k))
+				pos = p
 			}
 		}
+		if missing == "" {
+			c.R.Ok(rule, FuncShort(td), construct, c.pos(x.Pos()), "all distinguished reasons release the transfer", true)
+		} else {
+			c.R.Bad(rule, FuncShort(td), construct, c.pos(pos), "the handler distinguishes the value "+missing+" of this field but does not call DownloadClose under it, while it does under its siblings: that end-of-transfer report leaves the download open")
+		}
 	}
+
 	if n == 0 {
 		c.R.Anchor(rule, "a DownloadClose call under a reason test in TaskDispatch")
 	}
